@@ -1,5 +1,6 @@
 import Sourmash.Lemmas.LookupExact
 import Sourmash.Lemmas.IndexExtend
+import Sourmash.Lemmas.IndexReduce
 /-! Property C07 — index lookups report exact overlaps: no false negatives or positives.
 Property theorems only; helper lemmas live in `Sourmash/Lemmas/LookupCounter.lean`, `LookupExact.lean`.
 
@@ -56,6 +57,17 @@ theorem mem_exact (r : H2C × Colors) (C : Coll) (Q : List Nat)
     (hidx : ∀ h ∈ Q, memIds r h = refIds C h) :
     memCounter r Q = refCounter C Q :=
   tally_exact C Q (memIds r) hidx
+
+/-- T-mem_exact, closed: for an in-memory index produced along *any* reduction tree over the collection's
+datasets (the conclusion of C09's T-mem_reduce) -/
+theorem mem_exact_of_tree (C : Coll) (t : RTree) (hperm : t.leaves.Perm (List.range C.length)) (Q : List Nat) :
+    ∃ r, t.eval C = some r ∧ memCounter r Q = refCounter C Q := by
+  obtain ⟨r, h1, h2, h3⟩ := RTree.eval_spec C t
+  refine ⟨r, h1, mem_exact r C Q (fun h _ => ?_)⟩
+  rw [memIds_eq_abs h2]
+  apply eq_of_sorted_of_mem (sorted_abs h2 h) (sorted_refIds C h)
+  intro x
+  rw [h3 h x, mem_refIds, hperm.mem_iff, List.mem_range]
 
 /-- the exact counter, entry by entry: dataset `i` is reported iff it shares a hash with the query, and
 then with `|Q ∩ D_i|` -/
